@@ -50,7 +50,7 @@ def run(chk, scratch):
             if p.returncode != 0 or not os.path.exists(os.path.join(d, name)):
                 raise runner.Inconclusive("could not build %s with src/gtf2db.py: %s" % (name, p.stdout.decode()[-300:]))
         bam = os.path.join(d, "r.bam")
-        base = ["-d", "nanopore", "-r", os.path.join(d, "g.fa"), "-t", "2", "-p", pipeline.PREFIX, "--no_gzip", "--force", "--count_exons"]
+        base = ["-d", "nanopore", "-r", os.path.join(d, "g.fa"), "-t", str(1 + seed % 2), "-p", pipeline.PREFIX, "--no_gzip", "--force", "--count_exons"]
         # BAM partitions
         mapped = [r for r in w.reads if not (r.flag & 4)]
         unmapped = [r for r in w.reads if r.flag & 4]
